@@ -392,18 +392,44 @@ def _protocol(run, ix):
         if not ok:
             run.violation("R3", m.where, f"Cache.{name} touches the memo dict without verifying the id first", key=key_of("C01-R3", name))
     v = C.methods.get("verify")
-    txt = ast.unparse(v.node)
-    cfg = CFG(v.node, exceptions=False)
-    ok = "id_new = self._id_function()" in txt and "if id_new != self.id_current:" in txt and "self.cache = {}" in txt and "self.id_current = id_new" in txt
-    # the dump must be inside the `id_new != id_current` branch and not guarded by anything else but the lock
-    run.instance("R3", v.where, "verify(): recompute id, dump dict and adopt id when it differs", ok)
+    from ..pathsum import summaries
+    from ..provenance import Prov
+    pvv = Prov(ix, v)
+
+    def cv(e, origin=None):
+        st = pvv.stmt_of(origin if origin is not None else e)
+        return pvv.canon(e, st) if st is not None else ast.unparse(e)
+
+    SAME = "P_self._id_function() == P_self.id_current"
+    SAME2 = "P_self.id_current == P_self._id_function()"
+    n_paths = 0
+    bad_dump = bad_keep = bad_early = None
+    for ps in summaries(v.node, canon=cv):
+        n_paths += 1
+        same = ps.holds(SAME)
+        if same is None:
+            same = ps.holds(SAME2)
+        dumps = ps.has_stmt(lambda s_: isinstance(s_, ast.Assign) and ast.unparse(s_.targets[0]) == "self.cache" and ast.unparse(s_.value) in ("{}", "dict()"))
+        adopts = ps.has_stmt(lambda s_: isinstance(s_, ast.Assign) and ast.unparse(s_.targets[0]) == "self.id_current"
+                             and cv(s_.value) == "P_self._id_function()")
+        if same is False and not (dumps and adopts):
+            bad_dump = ps
+        if same is True and dumps:
+            bad_keep = ps
+        if same is None:
+            # the id was not compared on this path: only the lock may end verify() early
+            locked = any(t.replace(" ", "") in ("P_self._lock==0", "P_self._lock>0", "P_self._lock", "P_self._lock!=0") for t, p_ in ps.conds)
+            if not locked:
+                bad_early = ps
+    ok = n_paths >= 2 and bad_dump is None and bad_keep is None
+    run.instance("R3", v.where, f"verify(): on every path where the id differs the dict is replaced and the id adopted; kept when equal ({n_paths} paths)", ok)
     if not ok:
         run.violation("R3", v.where, "Cache.verify no longer dumps the memo dict whenever the id function's value changed", key=key_of("C01-R3", "verify"))
-    early = [st for st in ast.walk(v.node) if isinstance(st, ast.If) and any(isinstance(x, ast.Return) for x in st.body)]
-    ok = all(ast.unparse(e.test).replace(" ", "") in ("self._lock!=0", "self._lock>0", "self._lock") for e in early)
-    run.instance("R3", v.where, f"verify(): the only early return is the lock ({[ast.unparse(e.test) for e in early]})", ok)
+    ok = bad_early is None
+    run.instance("R3", v.where, "verify(): a path that does not compare the id is an early return under the lock", ok)
     if not ok:
-        run.violation("R3", v.where, "Cache.verify returns early on a condition other than the lock", key=key_of("C01-R3", "verify-early"))
+        run.violation("R3", v.where, f"Cache.verify ends without comparing the id under {sorted(bad_early.conds)}: only the lock may suspend verification",
+                      key=key_of("C01-R3", "verify-early"))
     ex = C.methods.get("__exit__")
     txt = ast.unparse(ex.node)
     ok = "self._lock -= 1" in txt and "self.id_current = self._id_function()" in txt
